@@ -218,8 +218,20 @@ def run_ast_case(case, res, prop):
                 from architecture_simulator.isa.riscv.riscv_parser import RiscvParser
 
                 sim = make_riscv("single")
-                RiscvParser().parse("\n".join(["addi x1, x1, 1"] * (len(exp) + 1 + ri % 7)), sim.state)
-                RiscvParser().parse(text, sim.state)
+                if ri % 2:
+                    # ONE parser object used for everything, after a text it rejected late (unknown label / odd offset)
+                    P_ = RiscvParser()
+                    for bad_ in ("addi x1, x1, 1\nsub x2, x2, x2\nbeq x0, x0, no_such_label_", "addi x3, x3, 3\njal x0, 3"):
+                        try:
+                            P_.parse(bad_, sim.state)
+                        except Exception:
+                            pass
+                    res.count("parser_object_reused_after_rejected_text")
+                    mkp = lambda: P_
+                else:
+                    mkp = RiscvParser
+                mkp().parse("\n".join(["addi x1, x1, 1"] * (len(exp) + 1 + ri % 7)), sim.state)
+                mkp().parse(text, sim.state)
                 res.count("assembled_over_longer_program")
             elif ri % 4 == 3:
                 # the simulation has an instruction cache and has already RUN another program: what is read from the
@@ -358,6 +370,12 @@ def directed_c04():
     far = [{"k": "jall", "m": "jal", "rd": 1, "label": "L1", "off": None}] + [{"k": "nop"}] * 1100 + [{"k": "jall", "m": "jal", "rd": 0, "label": "L0", "off": 4}, {"k": "brl", "m": "beq", "rs1": 0, "rs2": 0, "label": "Label1", "off": None}] + [{"k": "nop"}] * 1022 + [{"k": "jaln", "m": "jal", "rd": 0, "abs": 8}]
     c = mk(far, {"L0": 0, "L1": 1101, "Label1": 1102 + 1023})
     c["renders"] = [0, 5]
+    D.append(c)
+    # a program that fills the instruction memory EXACTLY (4096 instructions, a li expanding into the last two slots, a
+    # label behind the last instruction): it fits, so it assembles
+    fit = [{"k": "jall", "m": "jal", "rd": 0, "label": "Lend", "off": None}] + [{"k": "nop"}] * 4092 + [{"k": "brl", "m": "bne", "rs1": 1, "rs2": 2, "label": "L0", "off": 4}, {"k": "li", "rd": 7, "c": 0x12345}]
+    c = mk(fit, {"L0": 4090, "Lend": 4095})
+    c["renders"] = [0]
     D.append(c)
     # identifiers that differ only in case, used by otherwise identical lines
     dcase = [{"name": "Val", "type": "word", "vals": [11]}, {"name": "val", "type": "word", "vals": [22]}]
@@ -805,6 +823,14 @@ def run_outlets_case(case, res):
             if type(r) is not type(o) or fields(r) != fields(o):
                 res.violation("C14", "round-trip", "address %d: %r re-assembles to %r" % (a, o, r), case)
                 return
+        if case.get("icache") and case["icache"]["bb"] >= 1 and (len(prog) + (mode == "five")) % 2 == 0:
+            # a stub written behind a GAP of one or two empty words: it shares a cache block with the program's tail or
+            # with the gap; the cache table must show it at the address it is stored at
+            g_ = 1 + (len(prog) // 2) % 2
+            stub = build_instr({"m": "addi", "rd": 5, "rs1": 5, "imm": 1}, 4 * (len(prog) + g_))
+            im.write_instruction(4 * (len(prog) + g_), stub)
+            lst[4 * (len(prog) + g_)] = repr(stub)
+            res.count("stub_behind_a_gap_in_a_cached_block")
         # (b) + (c): run
         set_regs(sim, case["regs"])
         preload_mem(sim, case["mem"])
